@@ -25,6 +25,8 @@ pub enum GK {
     /// send `go wtime .. btime .. winc .. binc ..` with (own, own_inc) given to the side to move of the
     /// GUI's current game record and (opp, opp_inc) to the other side
     GoClock { own: u64, own_inc: u64, opp: u64, opp_inc: u64 },
+    /// the same with a depth limit as well
+    GoClockDepth { own: u64, own_inc: u64, opp: u64, opp_inc: u64, depth: u32 },
     AwaitBest,
     AwaitReady,
     /// let simulated time pass (ns)
@@ -167,6 +169,7 @@ impl Case {
                     GK::Retreat(n) => ("retreat", json!(n)),
                     GK::RepeatAfterBest => ("repeat-after-bestmove", Value::Null),
                     GK::GoClock { own, own_inc, opp, opp_inc } => ("go-clock", json!({"own": own, "own_inc": own_inc, "opp": opp, "opp_inc": opp_inc})),
+                    GK::GoClockDepth { own, own_inc, opp, opp_inc, depth } => ("go-clock-depth", json!({"own": own, "own_inc": own_inc, "opp": opp, "opp_inc": opp_inc, "depth": depth})),
                     GK::AwaitBest => ("await-bestmove", Value::Null),
                     GK::AwaitReady => ("await-readyok", Value::Null),
                     GK::Delay(ns) => ("delay-ns", json!(ns)),
@@ -294,6 +297,7 @@ impl Case {
                 },
                 "retreat" => GK::Retreat(a.as_u64().ok_or("retreat")? as u32),
                 "repeat-after-bestmove" => GK::RepeatAfterBest,
+                "go-clock-depth" => GK::GoClockDepth { own: u(a, "own")?, own_inc: u(a, "own_inc")?, opp: u(a, "opp")?, opp_inc: u(a, "opp_inc")?, depth: u(a, "depth")? as u32 },
                 "go-clock" => GK::GoClock { own: u(a, "own")?, own_inc: u(a, "own_inc")?, opp: u(a, "opp")?, opp_inc: u(a, "opp_inc")? },
                 "await-bestmove" => GK::AwaitBest,
                 "await-readyok" => GK::AwaitReady,
